@@ -20,6 +20,8 @@
 //   plant <id|!name> <data>    -> ok   (write a file into the storage directory behind the store's back)
 //   crash <op...>              -> fsops=<N> <output of op>   (C04 build: N = mutating file-system calls the op made)
 //   crashat <k> <op...>        -> crashed   (C04 build: forked child killed before the k-th mutating call; instance forgotten)
+//   failat <k> <short> <op...> -> output of op   (C04 build: the k-th file-system call of the op fails with an I/O error;
+//                                 a failing write first gets <short> bytes through; `crash <op>` also reports calls=<M>)
 // <data>: hex | - (empty) | r<seed>n<len> (pattern).  <bytes>: hex if <= 32 bytes ("-" if empty), else <len>:<fnv1a64>.
 // The storage directory is ./sd-<tag>/<case id> below the working directory (tag = $STORE_H_TAG or pid);
 // `keep` in init re-uses what is there, otherwise the directory is emptied first.
@@ -48,6 +50,8 @@ extern "C" {
 __attribute__((weak)) void c04_trace_begin(int op_index);
 __attribute__((weak)) const char* c04_trace_end();
 extern __attribute__((weak)) long c04_last_events;
+extern __attribute__((weak)) long c04_last_calls;
+__attribute__((weak)) void c04_arm_fail(int op_index, long k, long short_bytes);
 __attribute__((weak)) void c04_arm(int op_index, long k);
 }
 
@@ -267,7 +271,18 @@ std::string handle(const std::vector<std::string>& t) {
         try { out = handle_inner(rest); } catch (const std::exception& ex) { out = verif::exception_name(ex); }
         out = with_trace(out);
         const long n = (&c04_last_events) ? c04_last_events : -1;
-        return "fsops=" + std::to_string(n) + " " + out;
+        const long m = (&c04_last_calls) ? c04_last_calls : -1;
+        return "fsops=" + std::to_string(n) + " calls=" + std::to_string(m) + " " + out;
+    }
+    if (t[0] == "failat" && t.size() > 3) {
+        // `failat <k> <short> <op>`: the k-th file-system call of the op fails with an I/O error
+        // (a write gets <short> bytes through first); the op itself runs to completion in-process
+        if (!c04_arm_fail) return "no-fsfault";
+        c04_arm_fail(op_index, std::stol(t[1]), std::stol(t[2]));
+        std::vector<std::string> rest(t.begin() + 3, t.end());
+        std::string out;
+        try { out = handle_inner(rest); } catch (const std::exception& ex) { out = verif::exception_name(ex); }
+        return with_trace(out);
     }
     if (t[0] == "crashat" && t.size() > 2) {
         // `crashat <k> <op>`: a forked child runs the op and is killed (_exit) immediately before its
